@@ -32,10 +32,10 @@ func init() {
 			witnessFamily("C06"),
 			{Name: "deep", N: func(t string) int { return len(c06Deep(t)) }, Run: func(c *Case) { c06Construct(c, c06Deep(c.Tier)[c.Index], "deep") }},
 			{Name: "long", N: func(t string) int { return len(c06Long(t)) }, Run: func(c *Case) { c06Construct(c, c06Long(c.Tier)[c.Index], "long") }},
-			{Name: "trunc", N: tierN(1500, 60000), Run: c06Trunc},
-			{Name: "fuzz", N: tierN(1000, 40000), Run: c06Fuzz},
-			{Name: "fnargs", N: func(string) int { return len(xgen.AllFuncs) }, Run: c06FnArgs},
-			{Name: "utf8edge", N: func(string) int { return 160 }, Run: c06UTF8Edge},
+			{CPUBudget: 40, Name: "trunc", N: tierN(1500, 60000), Run: c06Trunc},
+			{CPUBudget: 40, Name: "fuzz", N: tierN(1000, 40000), Run: c06Fuzz},
+			{CPUBudget: 40, Name: "fnargs", N: func(string) int { return len(xgen.AllFuncs) }, Run: c06FnArgs},
+			{CPUBudget: 40, Name: "utf8edge", N: func(string) int { return 160 }, Run: c06UTF8Edge},
 		},
 	})
 }
